@@ -401,6 +401,12 @@ def sign_match_cases(rng, res, n):
                 all_ok = all(x in signers for x in ask)
                 record(res, "sign_verify", {"variant": variant, "dsse": dsse, "asked_signed": [x in signers for x in ask]}, st,
                        "success" if all_ok else "sig", argv=_av, file_kind="layout")
+                # the model of the loop over the keys: the first failing check decides, only all passing is success
+                mm = core.driver().call({"op": "sign_verify_many", "results": ["success" if x in signers else "sig" for x in ask]})["ok"]
+                res.evaluations += 1
+                if norm(st) != mm:
+                    res.fail("disagree", {"op": "sign_verify_many", "asked_signed": [x in signers for x in ask]},
+                             {"op": "sign_verify_many", "impl": st, "model": mm})
             elif variant in ("link_append", "link_one_key"):
                 lk = Link(name="s")
                 (Envelope.from_signable(lk) if dsse else Metablock(signed=lk)).dump("s.link")
